@@ -51,6 +51,7 @@ func writeEvidence(p *Prop, cs *coordState, tier string, seed uint64, wall float
 		"scheduler_steps":     cs.agg.Steps,
 		"faults_fired":        cs.agg.Faults,
 		"probes_hit":          cs.agg.Probes,
+		"measured_maxima":     cs.agg.Maxes,
 		"faults_never_fired":  missingF,
 		"probes_never_hit":    missingP,
 		"known_finding_hits":  known,
